@@ -1194,7 +1194,33 @@ func (x *exec) unop(s *State, i *ssa.UnOp) Value {
 	return PoisonV{"unop " + i.Op.String()}
 }
 
+// waitsFor: "waitsfor <expr>" in the contract of the function under
+// verification: every blocking channel operation must be a select that also
+// receives from <expr> (the torrent's Done channel), so that it cannot outlive
+// the party it talks to.
+func (x *exec) waitsFor(s *State) []*Term {
+	t := x.topExec()
+	if t != x || t.contract == nil || x.e.dry > 0 {
+		return nil
+	}
+	cls := t.contract.Of("waitsfor")
+	if len(cls) == 0 {
+		return nil
+	}
+	var out []*Term
+	for _, it := range splitTop(cls[0].Text, ',') {
+		sub := &Clause{Kind: "waitsfor", Text: trim(it), File: cls[0].File, Line: cls[0].Line}
+		if v, ok := x.evalClause(sub, s, token.NoPos).(*Term); ok {
+			out = append(out, v)
+		}
+	}
+	return out
+}
+
 func (x *exec) chanOp(s *State, ch Value, what string, pos token.Pos) {
+	if x.waitsFor(s) != nil {
+		x.oblige("blocking", what, pos, s, x.e.C.False(), "blocking channel "+what+" outside a select that also waits for the Done channel")
+	}
 	// blocking is not modelled; a send on a closed channel would panic
 	if what == "send" {
 		if r, ok := ch.(*Term); ok {
